@@ -88,8 +88,16 @@ def lean_step(pid, cfg, res):
     import translate
     t0 = time.time()
     gen = cfg.get("gen", [])
+    pre_broken = []
     if gen:
-        changed = translate.regenerate(set(gen) | {"Dy.lean"})
+        try:
+            changed = translate.regenerate(set(gen) | {"Dy.lean"})
+        except (Infra, subprocess.TimeoutExpired, KeyboardInterrupt, SystemExit):
+            raise
+        except BaseException as e:        # noqa - the code under /repo could not be read/constructed by the translator
+            tb = traceback.format_exc().strip().split("\n")
+            pre_broken.append(f"translator could not regenerate {sorted(gen)} from /repo: {type(e).__name__}: {str(e)[:200]} | {' | '.join(tb[-3:])[:300]}")
+            changed = []
         res["regenerated"] = gen
         res["regenerated_changed"] = changed
     res["translate_s"] = round(time.time() - t0, 1)
@@ -97,7 +105,7 @@ def lean_step(pid, cfg, res):
     targets = ["driver"] + modules + cfg.get("gen_modules", [])
     ok, out, dt = lake_build(targets)
     res["build_s"] = round(dt, 1)
-    broken = []
+    broken = list(pre_broken)
     if not ok:
         errs = [l for l in out.split("\n") if "error" in l.lower()][:12]
         broken.append("lake build failed: " + " | ".join(errs))
@@ -158,6 +166,30 @@ def corr_step(pid, cfg, res, tier, deep):
     mism = []
     for st in cfg.get("streams", []):
         t0 = time.time()
+        try:
+            o = _one_stream(st, r, tier, cfg)
+        except (Infra, subprocess.TimeoutExpired, KeyboardInterrupt, SystemExit):
+            raise
+        except BaseException as e:       # noqa - the implementation reached a state the observer cannot handle
+            tb = traceback.format_exc().strip().split("\n")
+            res["broken"].append(f"correspondence stream {st} could not observe the implementation: {type(e).__name__}: {str(e)[:200]} | {' | '.join(tb[-4:])[:400]}")
+            out[st] = {"evaluations": 0, "mismatches": [], "crashed": f"{type(e).__name__}: {str(e)[:200]}", "wall_s": round(time.time() - t0, 1)}
+            continue
+        o["wall_s"] = round(time.time() - t0, 1)
+        mism += o["mismatches"]
+        o["mismatches"] = [m.to_json() for m in o["mismatches"][:5]]
+        out[st] = o
+    res["correspondence"] = out
+    res["corr_evaluations"] = sum(o["evaluations"] for o in out.values())
+    res["corr_mismatches"] = len(mism)
+    if mism:
+        res["broken"].append(f"correspondence: {len(mism)} mismatching cases, first: stream={mism[0].stream} cmd={mism[0].line[:80]}")
+    return mism
+
+
+def _one_stream(st, r, tier, cfg):
+    import streams
+    if True:
         if st == "evolvent":
             o = streams.corr_evolvent(r, tier)
         elif st == "searchdata":
@@ -179,16 +211,7 @@ def corr_step(pid, cfg, res, tier, deep):
             o = streams.corr_solver(r, ncases, case_fn=solver_variants.VARIANTS[st])
         else:
             raise Infra(f"unknown stream {st}")
-        o["wall_s"] = round(time.time() - t0, 1)
-        mism += o["mismatches"]
-        o["mismatches"] = [m.to_json() for m in o["mismatches"][:5]]
-        out[st] = o
-    res["correspondence"] = out
-    res["corr_evaluations"] = sum(o["evaluations"] for o in out.values())
-    res["corr_mismatches"] = len(mism)
-    if mism:
-        res["broken"].append(f"correspondence: {len(mism)} mismatching cases, first: stream={mism[0].stream} cmd={mism[0].line[:80]}")
-    return mism
+        return o
 
 
 def oracle_step(pid, tier, deep):
@@ -198,7 +221,14 @@ def oracle_step(pid, tier, deep):
         return None
     r = rng(pid + ":oracle")
     t0 = time.time()
-    o = mod.run("thorough" if deep else tier, r)
+    try:
+        o = mod.run("thorough" if deep else tier, r)
+    except (Infra, subprocess.TimeoutExpired, KeyboardInterrupt, SystemExit):
+        raise
+    except BaseException as e:           # noqa - the oracle itself could not cope with what the implementation did
+        tb = traceback.format_exc().strip().split("\n")
+        return {"explored": 0, "violations": [], "crashed": f"{type(e).__name__}: {str(e)[:200]} | {' | '.join(tb[-4:])[:400]}",
+                "wall_s": round(time.time() - t0, 1)}
     o["wall_s"] = round(time.time() - t0, 1)
     return o
 
@@ -236,6 +266,8 @@ def run_property(pid, tier):
     # 4 oracle
     o = oracle_step(pid, tier, deep)
     if o is not None:
+        if o.get("crashed"):
+            res["broken"].append("the direct oracle could not observe the implementation: " + o["crashed"])
         for v in o.get("violations", []):
             violations.append({"kind": "property violated on the implementation", **v})
         for k in o.get("known", []):
